@@ -422,6 +422,19 @@ class Repo:
         except KeyError:
             raise AnalysisError('module %s not found (anchor vanished)' % name)
 
+    def text(self, rel: str) -> str:
+        """Text of a non-Python file of the tree (bundled grammars), overlay-aware; recorded among the analysed files."""
+        if rel in self.overlay:
+            src = self.overlay[rel]
+        else:
+            path = self.root / rel
+            if not path.is_file():
+                raise AnalysisError('file %s not found (anchor vanished)' % rel)
+            src = path.read_text(encoding='utf8')
+        if rel not in self.files:
+            self.files.append(rel)
+        return src
+
     def cls(self, qual: str) -> ClassInfo:
         try:
             return self.classes[qual]
